@@ -65,6 +65,21 @@ def run(tier="quick", seed=1, work=None, replay=None, focus="C10", ncases=None):
             if cfg.get("delete") and not cfg.get("force"): flags.append("--force-delete"); cfg["force"] = 1
             if rng.chance(1, 4): flags += ["--max-errors", str(rng.pick([0, 1, 2]))]
             src = es.gen_src(rng, opts); dst = es.gen_dst(rng, src, opts)
+            # targeted family (seeded changes C10c / C19c): a --delete run over stale entries of EVERY kind — regular file,
+            # directory with content, dangling link, link to a directory outside, link to a file — with the fault on the
+            # removal of each of them in turn; no filters, so that exit 0 must mean an exact mirror
+            targeted = (ci % 3 == 1)
+            if targeted:
+                flags = ["--delete", "--force-delete", "-j", str(rng.pick([1, 1, 4]))]; cfg = {"links": "p", "cmp": "d", "delete": 1, "force": 1}; excl = []; env = {}
+                opts = dict(opts, symlinks=True)
+                src = {r: n for r, n in src.items() if n["k"] != "l" or True}
+                top = [""] + [r for r, n in dst.items() if n["k"] == "d" and r in src and src[r]["k"] == "d"]
+                par = rng.pick(top); pre = (par + "/") if par else ""
+                for nm_, node in (("zz-stale.txt", F(b"stale")), ("zz-dangling", L("nowhere/at/all")), ("zz-to-outdir", L("@OUT@")),
+                                  ("zz-to-file", L("@OUT@/sentinel.txt")), ("zz-loop", L("zz-loop")), ("zz-dir", D()), ("zz-dir/inner", F(b"inner")),
+                                  ("zz-dir/deadlink", L("gone"))):
+                    if (pre + nm_) not in src: dst[pre + nm_] = node
+                rep.tag("targeted.delete-fault-matrix")
             pristine = os.path.join(work, f"p{ci}")
             subst = {"@SRC@": os.path.join(work, f"f{ci}", "src"), "@OUT@": os.path.join(work, f"f{ci}", "out")}
             os.makedirs(os.path.join(pristine, "out")); open(os.path.join(pristine, "out", "sentinel.txt"), "wb").write(b"sentinel")
@@ -92,6 +107,9 @@ def run(tier="quick", seed=1, work=None, replay=None, focus="C10", ncases=None):
             # re-reads and the block comparisons of the delta path (seeded change C19b: a verification that could not be done)
             for _ in range(3 if tier == "quick" else 8):
                 if counts.get("read", 0) > 0: plan.append(("read", rng.range(1, counts["read"]), "EIO"))
+            if targeted:
+                # every removal call of the fault-free run, each failing once with EIO (then the sampled plan)
+                plan = [(c, k, "EIO") for c in ("unlink", "unlinkat") for k in range(1, counts.get(c, 0) + 1)][:40] + plan[:4]
             for (call, k, errno_) in plan:
                 shutil.copytree(pristine, case_dir, symlinks=True); fix_mtimes(pristine, case_dir)
                 one_fault(rep, drv, contents, ci, seed, case_dir, src_root, dst_root, out_root, flags, cfg, env, excl, [(call, k, errno_)], ref_dst, rc0)
@@ -170,6 +188,18 @@ def one_fault(rep, drv, contents, ci, seed, case_dir, src_root, dst_root, out_ro
         else:
             rep.oracle_fail("C10/exit-zero-but-" + "+".join(kinds) + "-wrong", f"exit 0 under {faults} but {wrong[:3]} do not satisfy C01's postcondition", desc)
     if rc == 0 and real_errors: rep.oracle_fail("C10/exit-zero-with-error-events", f"exit 0 but error events {real_errors[:3]}", desc)
+    # --delete without filters: exit 0 means every planned deletion completed, i.e. nothing stale is left (a deletion that
+    # did not happen is a planned operation that did not complete); and a delete event names an entry that is really gone
+    if cfg.get("delete") and not excl and cfg.get("min", "-") == "-" and cfg.get("max", "-") == "-" and links == "p":
+        stale = sorted(r for r in post_dst if r not in pre_src and r not in OWN_FILES)
+        # (C10 quantifies over faults at MUTATING system calls; a failing read-only probe during the destination scan can
+        #  hide a stale entry from the planner — recorded as an observation, like the other planning-phase probe faults)
+        if rc == 0 and stale and not all(c in MUTATING for c, _, _ in faults): rep.tag("observation.stale-entry-unseen-under-probe-fault")
+        if rc == 0 and stale and all(c in MUTATING for c, _, _ in faults):
+            rep.oracle_fail("C10/exit-zero-but-stale-entry-remains", f"exit 0 under {faults} but {stale[:3]} (not in the source) are still in the destination", desc)
+    for a, rel in real_events:
+        if a == "d" and rel in post_dst:
+            rep.oracle_fail("C19/delete-event-not-observable", f"delete event for {rel} under {faults} but the entry is still there", desc)
     if summ is not None and not probe_case:
         # the run reached its end: every wrong entry must be one the report names as failed (itself or an ancestor)
         for rel, kind in wrong:
